@@ -110,3 +110,13 @@ var _ = rec.New
 var _ sync.Mutex
 
 func stringsContains(s, sub string) bool { return strings.Contains(s, sub) }
+
+// errCause is the cause every context of the harness is cancelled with: the library promises the context's error
+// (context.Canceled), not the cause
+var errCause = errors.New("harness: cancellation cause")
+
+// withCancelCause is context.WithCancel, except that cancelling records a cause
+func withCancelCause(parent context.Context) (context.Context, context.CancelFunc) {
+	ctx, cancel := context.WithCancelCause(parent)
+	return ctx, func() { cancel(errCause) }
+}
